@@ -265,7 +265,14 @@ impl Codec {
                         let r = catch(|| {
                             let mops: Vec<Op> = m.ops().collect();
                             let by_ix: Vec<Option<Op>> = (0..ops.len() + 2).map(|i| m.op(i)).collect();
-                            let tail: Vec<Vec<Op>> = (0..=ops.len()).map(|k| m.ops_from(k).map(|s| s.ops().collect()).unwrap_or_default()).collect();
+                            // every start index for short programs; for long ones the first and last 24 and a stride
+                            // in between (the tails are quadratic in the program length)
+                            let n = ops.len();
+                            let stride = (n / 24).max(1);
+                            let tail: Vec<(usize, Vec<Op>)> = (0..=n)
+                                .filter(|k| n <= 64 || *k < 24 || *k + 24 > n || *k % stride == 0)
+                                .map(|k| (k, m.ops_from(k).map(|s| s.ops().collect()).unwrap_or_default()))
+                                .collect();
                             let beyond = m.ops_from(ops.len() + 1).is_none();
                             let slice_ops: Vec<Op> = m.as_slice().ops().collect();
                             (mops, by_ix, tail, beyond, slice_ops)
@@ -278,7 +285,7 @@ impl Codec {
                                 if *bops != ops { bad.push("borrowed ops()"); }
                                 if slice_ops != ops { bad.push("as_slice().ops()"); }
                                 if by_ix.iter().enumerate().any(|(i, o)| *o != ops.get(i).copied()) { bad.push("op(i)"); }
-                                if tail.iter().enumerate().any(|(k, t)| t[..] != ops[k..]) { bad.push("ops_from(k)"); }
+                                if tail.iter().any(|(k, t)| t[..] != ops[*k..]) { bad.push("ops_from(k)"); }
                                 if !beyond { bad.push("ops_from(len+1) is Some"); }
                                 if m.bytecode() != bytes { bad.push("bytecode()"); }
                                 // byte offsets of ops, relative to what the parser made of the string (whether the
@@ -481,6 +488,44 @@ pub fn run(args: &Args, rep: &mut Report) {
         }
         rep.set("exhaustive_subspaces", "Push immediates: walking ones/zeros; every opcode byte at every immediate position");
         codec.check_bytes(&[], rep, &props);
+    }
+    // alignment sweep (exhaustive, sharded): a Push-bearing probe behind every filler length 0..=8300, so that the
+    // Push opcode / its immediate / the op after it sit at every offset relative to any block or window boundary a
+    // chunked parser, mapper or scanner may use (the filler holds no effect opcode and no Push)
+    if args.regime != "miri" {
+        let filler_op = 0x02u8; // Pop
+        let probes: Vec<Vec<u8>> = vec![
+            [&[1u8][..], &[0x82; 8][..]].concat(),
+            [&[1u8][..], &[0x01; 8][..], &[0x82][..]].concat(),
+            [&[1u8][..], &[0x01; 8][..], &[0x80][..]].concat(),
+            [&[1u8][..], &[0x80, 0x81, 0x82, 0x83, 0x30, 0x31, 0x01, 0x02][..], &[0x83][..]].concat(),
+            [&[1u8][..], &[0, 0, 0, 0, 0, 0, 0, 1][..], &[0x30][..], &[1u8][..], &[0xff; 8][..]].concat(),
+            vec![0x81],
+        ];
+        let max = if thorough { 9900 } else { 8300 };
+        let step = if args.regime == "dev" { 7 } else { 1 };
+        let mut n = 0u64;
+        for fill in (0..=max).step_by(step) {
+            for (pi, probe) in probes.iter().enumerate() {
+                n += 1;
+                if n % args.nshards as u64 != args.shard as u64 {
+                    continue;
+                }
+                // thin out the bulk, keep every offset near the power-of-two boundaries
+                let near = [1024usize, 2048, 3072, 4096, 8192].iter().any(|b| (fill + 16) % b < 40);
+                if !near && (fill + pi) % 5 != 0 {
+                    continue;
+                }
+                let mut bytes = vec![filler_op; fill];
+                bytes.extend(probe);
+                if pi % 2 == 0 {
+                    bytes.extend(vec![filler_op; 1030]);
+                }
+                codec.check_bytes(&bytes, rep, &props);
+                rep.count("alignment_sweep");
+            }
+        }
+        rep.set("exhaustive_subspaces", format!("alignment sweep: 6 Push-bearing probes behind fillers of 0..={max} one-byte ops (every offset near 1024/2048/3072/4096/8192, every fifth elsewhere)"));
     }
     // random programs, their truncations and mutations, random byte strings
     let mut r = Rng::new(crate::rng::mix(args.seed.wrapping_mul(1_000_003) + args.shard as u64, 0xc0dec));
